@@ -16,6 +16,8 @@ Events: {"e": poll|listed|presend|kick|postsend|add|remove|eot, "src", "sid", "t
 """
 from __future__ import annotations
 
+import sys
+
 import asyncio
 import datetime as _dt
 import logging
@@ -282,7 +284,23 @@ def run(scn: Dict[str, Any]) -> List[Dict[str, Any]]:
         sources = [make_label_source(env, i, s, broker) if scn["cfg"]["srcs"][i - 1].get("label") else ScriptedSource(env, i, s)
                    for i, s in enumerate(cfg["srcs"], start=1)]
         scheduler = TaskiqScheduler(broker, sources)  # type: ignore[arg-type]
-        task = loop.create_task(sched_run.run_scheduler_loop(scheduler))
+        via = scn["cfg"].get("via", "loop")
+        if via == "api":
+            # programmatic entry point: starts the sources, then runs the loop
+            from taskiq.api import run_scheduler_task
+            task = loop.create_task(run_scheduler_task(scheduler, run_startup=bool(cfg["start"] % 2)))
+        elif via == "cli":
+            # command line entry point: SchedulerArgs.from_cli(argv) -> run_scheduler(args); the scheduler object is found by the
+            # real import_object() in a module registered as sys.modules["verifschedmod"]
+            import types
+            from taskiq.cli.scheduler.args import SchedulerArgs
+            mod = types.ModuleType("verifschedmod")
+            mod.scheduler = scheduler  # type: ignore[attr-defined]
+            sys.modules["verifschedmod"] = mod
+            args = SchedulerArgs.from_cli(["verifschedmod:scheduler", "--no-configure-logging"])
+            task = loop.create_task(sched_run.run_scheduler(args))
+        else:
+            task = loop.create_task(sched_run.run_scheduler_loop(scheduler))
         loop.settle()
         for step in sorted(scn.get("steps", []), key=lambda s: s[0]):
             t, op, src = step[0], step[1], step[2]
@@ -305,6 +323,7 @@ def run(scn: Dict[str, Any]) -> List[Dict[str, Any]]:
         return env.events
     finally:
         env.closed = True
+        sys.modules.pop("verifschedmod", None)
         try:
             loop.shutdown()
         except Exception:  # noqa: BLE001
